@@ -31,8 +31,8 @@ import extlag  # noqa: E402
 EPS = 2.220446049250313e-16
 # validation of the monitor only (mutation runs): C17_SKIP=laws or C17_SKIP=lockstep switches one family of
 # verdicts off, to see that the other one decides on its own; such a run is never better than inconclusive
-LAWS_ON = os.environ.get("C17_SKIP", "") != "laws"
-LOCK_ON = os.environ.get("C17_SKIP", "") != "lockstep"
+LAWS_ON = "laws" not in os.environ.get("C17_SKIP", "").split(",")
+LOCK_ON = "lockstep" not in os.environ.get("C17_SKIP", "").split(",")
 RTOL = 1.0e-12          # per integrated step (accumulated rounding), see DESIGN.md C17
 
 VARS = {
@@ -500,17 +500,17 @@ def analyse(c, case, outs):
             if o1["margin"] < 1e-9 * max(1.0, abs(o1["x_new"])):
                 V.truncated = True     # arrival position within rounding of a wall: cannot tell which branch
                 return V
+            # ---- model-free, on the observed columns only ------------------------------------------------
+            # (ii) inside the reflecting walls, before and after the update
+            if p.refl_lower or p.refl_upper:
+                V.ii_events += 1
+                for nm, xx in (("reported", x_rep), ("after_update", ex)):
+                    if (p.refl_lower and xx < p.lower) or (p.refl_upper and xx > p.upper):
+                        side = "lower" if (p.refl_lower and xx < p.lower) else "upper"
+                        V.bad = ("outside_reflecting_boundary:%s:%s" % (side, K.split(":")[1]),
+                                 "step %d: coordinate %s = %.17g outside [%s, %s]" % (t, nm, xx, p.lower if p.refl_lower else "-", p.upper if p.refl_upper else "-"))
+                        return V
             if LAWS_ON:
-                # ---- model-free, on the observed columns only ------------------------------------------------
-                # (ii) inside the reflecting walls, before and after the update
-                if p.refl_lower or p.refl_upper:
-                    V.ii_events += 1
-                    for nm, xx in (("reported", x_rep), ("after_update", ex)):
-                        if (p.refl_lower and xx < p.lower) or (p.refl_upper and xx > p.upper):
-                            side = "lower" if (p.refl_lower and xx < p.lower) else "upper"
-                            V.bad = ("outside_reflecting_boundary:%s:%s" % (side, K.split(":")[1]),
-                                     "step %d: coordinate %s = %.17g outside [%s, %s]" % (t, nm, xx, p.lower if p.refl_lower else "-", p.upper if p.refl_upper else "-"))
-                            return V
                 # (iv) same time origin: one-step identities among the columns of this step
                 d_ = p.mi(xa - x_rep)
                 spring = p.k * d_
